@@ -403,3 +403,26 @@ Proof.
     + intros E. destruct (P2 E) as (-> & Hh & mm & ->). split; [reflexivity|]. split; [destruct Hh as [->| ->]; [left|right]; reflexivity|exists mm; reflexivity].
   - destruct A as (cn & e & r & sx' & B). destruct (bsE_sound _ _ _ _ B) as (f0 & F). exists f0. intros f Hf. eexists. split; [apply F; exact Hf|]. split; reflexivity.
 Qed.
+
+(* the elements of the model's object are exactly the bytes that went into the data block, in order *)
+Lemma concat_chunks sz : 0 < sz -> forall n l, zlen l = sz * Z.of_nat n -> concat (chunks n sz l) = l.
+Proof.
+  intros Hsz. induction n as [|n IH]; intros l Hl; cbn [chunks concat].
+  - destruct l; [reflexivity|]. rewrite zlen_cons in Hl. pose proof (zlen_nonneg l). lia.
+  - rewrite IH; [apply ztake_zdrop|]. unfold zdrop, zlen in *. rewrite skipn_length. lia.
+Qed.
+
+Lemma fixed_content_model k sx v cnt p ob s' : k < 0 -> is_arr v = false -> read_objects false None v cnt p sx = Ok (ob, s') ->
+  concat (oelems ob) = firstn (Z.to_nat (usize v * cnt)) sx /\ oty ob = v.
+Proof.
+  intros Hk Ha. unfold read_objects. rewrite Ha. destruct (cnt <? 0) eqn:E0; [discriminate|]. cbv zeta.
+  destruct (usize v <? 0) eqn:E1; [discriminate|]. pose proof (not_arr_usize v Ha) as Hnz. replace (usize v =? 0) with false by lia.
+  unfold rd_bind, ralloc, alloc_ok, fread_bytes, rret. replace (usize v * cnt <? 0) with false by nia.
+  destruct (zlen sx <? usize v * cnt) eqn:E2; [rewrite take_z_short by lia; discriminate|].
+  assert (Hs : sx = firstn (Z.to_nat (usize v * cnt)) sx ++ skipn (Z.to_nat (usize v * cnt)) sx) by (symmetry; apply firstn_skipn).
+  assert (Hl : zlen (firstn (Z.to_nat (usize v * cnt)) sx) = usize v * cnt) by (unfold zlen; rewrite firstn_length; unfold zlen in E2; lia).
+  pose proof (take_z_app (firstn (Z.to_nat (usize v * cnt)) sx) (skipn (Z.to_nat (usize v * cnt)) sx)) as TK. rewrite <- Hs, Hl in TK. rewrite TK.
+  intros [= <- _]. cbn [oelems oty]. split; [|reflexivity].
+  assert (Hid : forall l : list (list Z), map (swapb false) l = l) by (intros l; induction l as [|x l IHl]; cbn [map]; [reflexivity|now rewrite IHl]).
+  rewrite Hid. apply concat_chunks; [lia|]. rewrite Hl. rewrite Z2Nat.id by lia. reflexivity.
+Qed.
